@@ -72,6 +72,34 @@ CONTRACTS[Q + ":_evaluate"].call = _call
 CONTRACTS[Q + ":_evaluate"].props = "C09"
 
 
+# The public entry point: QAPObjective.evaluate hands x and the two instance matrices to _evaluate.  Modular call: only
+# _evaluate's contract is known here, so a wrapper that routes to another kernel, swaps the matrices or post-processes the
+# value no longer discharges `flow-distance-sum`.
+contract(
+    Q + ":QAPObjective.evaluate",
+    props="C09",
+    params={"x": A1("X")},
+    ghosts={"dist": A2("D"), "flo": A2("F"), "n": INT, "MF": INT, "MD": INT},
+    returns=INT,
+    attrs={"self.instance.distances": "dist", "self.instance.flows": "flo"},
+    requires=[
+        "n >= 1 and len(x) == n and shape(dist, 0) == n and shape(dist, 1) == n"
+        " and shape(flo, 0) == n and shape(flo, 1) == n",
+        "forall(k, 0, n, 0 <= x[k] and x[k] < n)",
+        "MF >= 0 and MD >= 0 and n * n * MF * MD <= 2**62 and MF * MD <= 2**62 and n * MF * MD <= 2**62",
+        "forall(a, 0, n, forall(b, 0, n, 0 <= flo[a, b] and flo[a, b] <= MF))",
+        "forall(a, 0, n, forall(b, 0, n, 0 <= dist[a, b] and dist[a, b] <= MD))",
+        "D_hi <= 2**63 - 1 and F_hi <= 2**63 - 1 and X_hi <= 2**63 - 1",
+    ],
+    calls={"_evaluate": {"n": "n", "MF": "MF", "MD": "MD"}},
+    ensures=[
+        tag("C09", "flow-distance-sum", "result == qsum(flo, dist, x, n, n)"),
+        tag("C09", "nonneg", "0 <= result"),
+    ],
+    must_fail=["result == 0"],
+)
+
+
 # ====================================================================== trivial_bounds (C09 bounds clause)
 def prove_c09_bounds(tier, seed):
     """trivial_bounds consists of whole-array numpy operations only.  Its statements are read from /repo and evaluated
